@@ -24,6 +24,7 @@ import Distill.Model.Root
 import Distill.Model.Terms
 import Distill.Model.IEReader
 import Distill.Model.ImageExtract
+import Distill.Model.OpenGraph
 namespace Distill.Slices
 open Distill Distill.Proto
 
@@ -556,6 +557,21 @@ def imageextractSlice : P String := do
   | .image e => pure s!"image {hex (String.ofList (outerHTML e))}"
   | .figure e c => pure s!"figure {hex (String.ofList (outerHTML e))} {hex (String.ofList (outerHTML c))}"
 
+/-- `opengraph tree nTbl (value lower)* og profile article` → whether the OpenGraph parser is usable
+and, if so, the answers of its accessor -/
+def opengraphSlice : P String := do
+  let t ← node
+  let m ← nat
+  let tbl ← many m (do let v ← str; let a ← str; pure (v, a))
+  let lower : String → String := fun v => match tbl.find? (fun e => e.1 == v) with | some e => e.2 | none => v
+  let og ← str; let pr ← str; let ar ← str
+  let p := OG.parse lower { og := og, profile := pr, article := ar } t
+  if !OG.usable p then pure "unusable"
+  else
+    let s := OG.source lower p
+    let art := match s.article with | some a => artStr a | none => "nil"
+    pure s!"usable {hex s.title} {hex s.type} {hex s.url} {hex s.description} {hex s.publisher} {hex s.author} {art} {s.images.map imgStr}"
+
 def outElP : P OutEl := do
   let c ← bool; let h ← str; let t ← str
   pure { content := c, html := h.toList, text := t.toList }
@@ -577,6 +593,7 @@ def dispatch (slice : String) : Option (P String) :=
   | "terms" => some termsSlice
   | "iereader" => some iereaderSlice
   | "imageextract" => some imageextractSlice
+  | "opengraph" => some opengraphSlice
   | "linknum" => some linknumSlice
   | "docfilters" => some docfilters
   | "tableclass" => some tableclass
